@@ -51,6 +51,9 @@ pub struct Cycle {
     /// what another actor does to the file between `new` and `assert`
     pub edit: Edit,
     pub got: String,
+    /// a second `assert` on the same Golden value (only after the first one returned)
+    #[serde(default)]
+    pub second: Option<String>,
 }
 
 #[derive(Clone, Debug, Serialize, Deserialize, Hash)]
@@ -277,6 +280,11 @@ impl Check for C20 {
                 2 => Edit::Remove,
                 _ => Edit::None,
             },
+            second: if rng.chance(1, 4) {
+                Some(if rng.chance(1, 2) { got_for(rng, &file_text) } else { content(rng) })
+            } else {
+                None
+            },
             got,
         };
         let mut cycles = vec![first];
@@ -300,6 +308,7 @@ impl Check for C20 {
                 },
                 // mostly related to whatever the file will hold: decided at execution (see below)
                 got: base,
+                second: if rng.chance(1, 6) { Some(content(rng)) } else { None },
             });
         }
         Sc {
@@ -354,6 +363,11 @@ impl Check for C20 {
                 s.cycles[i].env_at_assert = c.env_at_new.clone();
                 out.push(s);
             }
+            if c.second.is_some() {
+                let mut s = sc.clone();
+                s.cycles[i].second = None;
+                out.push(s);
+            }
             if c.got.chars().count() > 1 {
                 let n = c.got.chars().count();
                 let mut s = sc.clone();
@@ -391,6 +405,7 @@ impl Check for C20 {
                 "write_fault": format!("{:?}", c.write_fault),
                 "edit": match &c.edit { Edit::None => "none".to_string(), Edit::Remove => "remove".to_string(), Edit::Replace(b) => format!("replace with {:?}", String::from_utf8_lossy(b)) },
                 "got": c.got,
+                "second_assert_got": c.second,
             })).collect::<Vec<_>>(),
         })
     }
@@ -579,6 +594,44 @@ fn sim_leg(sc: &Sc, out: &mut RunOut) -> bool {
                         }
                         out.count("probe.failed-update-panicked");
                     }
+                }
+            }
+            // ---- a second assert on the same value ----
+            if let (true, Some(got2)) = (passed, &c.second) {
+                *w.write_fault.borrow_mut() = WriteFault::None;
+                let before = w.file.borrow().clone();
+                let writes2 = *w.writes.borrow();
+                let passed2 = catch_unwind(AssertUnwindSafe(|| golden.assert(got2))).is_ok();
+                let wrote2 = *w.writes.borrow() - writes2;
+                let after = w.file.borrow().clone();
+                out.mix(crate::prng::fnv(format!("second{}{}{:?}", passed2, wrote2, after).as_bytes()));
+                let sig2 = format!("second assert on the same value; {}", sig);
+                if update_on(&c.env_at_assert) {
+                    if wrote2 == 0 {
+                        consistent = false;
+                    }
+                    if after.as_deref() != Some(got2.as_bytes()) {
+                        out.violate("C20/file-ne-got-after-update", sig2.clone(), format!("UPDATE_GOLDEN={:?}: after the second assert the file holds {:?}, got was {:?}", c.env_at_assert, after.as_ref().map(|b| String::from_utf8_lossy(b).to_string()), got2));
+                    }
+                    if !passed2 {
+                        out.violate("C20/fail-on-equal", format!("update mode; {}", sig2), "the second assert panicked although the golden was to be updated to got".to_string());
+                    }
+                    out.count("probe.second-assert-updated");
+                } else {
+                    if wrote2 > 0 || after != before {
+                        out.violate("C20/wrote-without-update", sig2.clone(), format!("{} write call(s) during the second assert", wrote2));
+                    }
+                    if !(flipped || edited) {
+                        let content = text_at_new.clone().and_then(|r| r.ok()).unwrap_or_default().replace("\r\n", "\n");
+                        let equal = *got2 == content;
+                        if equal && !passed2 {
+                            out.violate("C20/fail-on-equal", sig2.clone(), format!("got == content.replace(CRLF, LF) == {:?}, yet the second assert panicked", got2));
+                        }
+                        if !equal && passed2 {
+                            out.violate("C20/pass-on-different", sig2.clone(), format!("got {:?} differs from normalised content {:?}, yet the second assert returned", got2, content));
+                        }
+                    }
+                    out.count("probe.second-assert-compared");
                 }
             }
         }
@@ -862,6 +915,37 @@ fn real_leg(sc: &Sc, out: &mut RunOut) {
                 out.violate("C20/fail-on-equal", format!("update mode; {}", sig), "assert panicked although the golden was to be updated to got".to_string());
             }
             out.count("probe.real-updated");
+        }
+        // ---- a second assert on the same value ----
+        if let (true, false, Some(got2)) = (passed, refuse, &c.second) {
+            let b2 = snapshot(&root);
+            let passed2 = catch_unwind(AssertUnwindSafe(|| golden.assert(got2))).is_ok();
+            let b3 = snapshot(&root);
+            let after = read_real(&path);
+            out.mix(crate::prng::fnv(format!("real-second{}{:?}", passed2, after).as_bytes()));
+            let sig2 = format!("second assert on the same value; {}", sig);
+            if update_on(&c.env_at_assert) {
+                if after.as_deref() != Some(got2.as_bytes()) {
+                    out.violate("C20/file-ne-got-after-update", sig2.clone(), format!("UPDATE_GOLDEN={:?}: after the second assert the file holds {:?}, got was {:?}", c.env_at_assert, after.as_ref().map(|b| String::from_utf8_lossy(b).to_string()), got2));
+                }
+                if !passed2 {
+                    out.violate("C20/fail-on-equal", format!("update mode; {}", sig2), "the second assert panicked although the golden was to be updated to got".to_string());
+                }
+            } else {
+                if b2 != b3 {
+                    out.violate("C20/wrote-without-update", sig2.clone(), format!("the directory tree changed during the second assert: {}", tree_diff(&b2, &b3)));
+                }
+                if !(flipped || edited || unreadable_at_new) {
+                    let content = text_at_new.clone().and_then(|r| r.ok()).unwrap_or_default().replace("\r\n", "\n");
+                    let equal = *got2 == content;
+                    if equal && !passed2 {
+                        out.violate("C20/fail-on-equal", sig2.clone(), format!("got == content.replace(CRLF, LF) == {:?}, yet the second assert panicked", got2));
+                    }
+                    if !equal && passed2 {
+                        out.violate("C20/pass-on-different", sig2.clone(), format!("got {:?} differs from normalised content {:?}, yet the second assert returned", got2, content));
+                    }
+                }
+            }
         }
         if refuse && !no_parent {
             remove_any(&path);
